@@ -329,3 +329,30 @@ def callable_body(W, t):
         if len(cands) == 1:
             return BV.of(cands[0]), 1
     return None, None
+
+
+def machine_fields_as_configured(W, sm):
+    """{field of StateMachine: rendered value} as build() assembles it (e.g. 'param1.0.cup_handler' = the builder's own
+    field, handed over untouched), or None when the construction is not found."""
+    from . import terms
+    from .core import walk
+    bco = W.bv(sm.build_co)
+    agg = [x for x in walk(bco.trace_local(0)) if x[0] == "agg" and x[2] and x[2].endswith("StateMachine::StateMachine")]
+    if len(agg) != 1:
+        return None
+    names = agg[0][4]
+    return {n_: terms.render(bco, agg[0][3][names.index(n_)], W, {}) for n_ in names}
+
+
+def check_as_configured(R, rule, W, sm, fields):
+    got = machine_fields_as_configured(W, sm)
+    if got is None:
+        R.inconclusive(rule, "as-configured", "construction of the StateMachine in build() not found")
+        return
+    for f, src in fields.items():
+        v = got.get(f)
+        if v is None:
+            R.inconclusive(rule, "as-configured:" + f, "StateMachine has no field %s" % f)
+            continue
+        R.check(rule, "as-configured:" + f, v == "param1.0." + src, "build() hands the configured %s to the state machine untouched" % src,
+                "build() does not hand the builder's %s to the state machine as configured: %s <- %s" % (src, f, v[:160]))
